@@ -1037,12 +1037,23 @@ def rule_grammar_guards(col, facts):
         for bb, v, sp in error_sites(f):
             if v != "InvalidLeadingZeros":
                 continue
-            for _d, e, p in path_conditions(f, bb):
+            # (dominating conditions, or - `zeros >= 2 || next is a digit` joins two edges - those of one way in)
+            for _d, e, p in list(path_conditions(f, bb)) + [c_ for alt in reach_alternatives(f, bb) for c_ in alt]:
                 e = strip_casts(e)
                 if e[0] == "bin" and any(last_seg(x[1]) == "skip_zeros" for x in expr_calls(e[2])) and strip_casts(e[3])[0] == "k":
                     k = strip_casts(e[3])[1]
                     if (e[1] == "Gt" and k == 1 and p is True) or (e[1] == "Ge" and k == 2 and p is True) or (e[1] == "Le" and k == 1 and p is False) or (e[1] == "Lt" and k == 2 and p is False):
                         ok = True
+        if not ok:
+            # `let invalid = zeros >= 2 || next_is_digit; if invalid { Err }`: some way into the error carries the test
+            from rules.core import some_path_has
+            def _more_than_one(e, p):
+                e = strip_casts(e)
+                if e[0] == "bin" and any(last_seg(x[1]) == "skip_zeros" for x in expr_calls(e[2])) and strip_casts(e[3])[0] == "k":
+                    k = strip_casts(e[3])[1]
+                    return (e[1] == "Gt" and k == 1 and p is True) or (e[1] == "Ge" and k == 2 and p is True) or (e[1] == "Le" and k == 1 and p is False) or (e[1] == "Lt" and k == 2 and p is False)
+                return False
+            ok = any(some_path_has(f, bb, _more_than_one) for bb, v, sp in error_sites(f) if v == "InvalidLeadingZeros")
         col.check(R, "%s:several-leading-zeros" % last_seg(fname), ok,
                   "no Error::InvalidLeadingZeros site is guarded by `more than one zero was skipped`: under no_integer_leading_zeros `00`, `000` are accepted as 0", f.loc())
 
@@ -1161,6 +1172,15 @@ def rule_grammar_guards(col, facts):
                 e = strip_casts(e)
                 if e[0] == "call" and last_seg(e[1]) == "is_some" and p is True and any(last_seg(x[1]) == "read_if_value" and any(last_seg(y[1]) == "base_prefix" for y in expr_calls(x)) for x in expr_calls(e)):
                     ok = True
+            if not ok:
+                # `let is_prefix = base_prefix != 0 && zeros == 1 && iter.read_if_value(..).is_some(); if is_prefix {..}`:
+                # read the boolean along every path to the adjustment
+                from rules.core import every_path_has
+                try:
+                    ok = every_path_has(f, bb, lambda e, p: strip_casts(e)[0] == "call" and last_seg(strip_casts(e)[1]) == "is_some" and p is True and
+                                        any(last_seg(x[1]) == "read_if_value" and any(last_seg(y[1]) == "base_prefix" for y in expr_calls(x)) for x in expr_calls(e)))
+                except AnchorMissing:
+                    ok = False
             if not ok:
                 badm += 1
                 where = f.loc(f.blocks[bb]["s"][j][3]) if j >= 0 else f.loc(f.blocks[bb]["ts"])
